@@ -1327,19 +1327,28 @@ class TexArgs(list):
         BracketGroup('arg3')
         """
         arg = self.__coerce(arg)
+        is_arg = isinstance(arg, (TexGroup, TexCmd))
+        # normalize the index the way list.insert does
+        i = max(0, len(self) + i) if i < 0 else min(i, len(self))
 
-        if isinstance(arg, (TexGroup, TexCmd)):
+        if is_arg:
             super().insert(i, arg)
 
-        if len(self) <= 1:
-            self.all.append(arg)
+        if i > 0:  # directly after the preceding argument
+            index = self.__index_in_all(self[i - 1]) + 1
+        elif len(self) > is_arg:  # directly before the following argument
+            index = self.__index_in_all(self[is_arg])
         else:
-            if i > len(self):
-                i = len(self) - 1
+            index = len(self.all)
+        self.all.insert(index, arg)
 
-            before = self[i - 1]
-            index_before = self.all.index(before)
-            self.all.insert(index_before + 1, arg)
+    def __index_in_all(self, item):
+        """Index of the object ``item`` itself (else of the first equal
+        element) in the proxy `.all`."""
+        for index, other in enumerate(self.all):
+            if other is item:
+                return index
+        return self.all.index(item)
 
     def remove(self, item):
         """Remove either an unparsed argument string or an argument object.
@@ -1387,8 +1396,8 @@ class TexArgs(list):
         BraceGroup('arg0')
         """
         item = super().pop(i)
-        j = self.all.index(item)
-        return self.all.pop(j)
+        self.all.pop(self.__index_in_all(item))
+        return item
 
     def reverse(self):
         r"""Reverse both the list and the proxy `.all`.
